@@ -124,7 +124,12 @@ structure PState where
   prev : Token
   tern : Bool
   func : Bool
+  /-- number of `parseExpression` calls in progress (nesting guard) -/
+  depth : Nat := 0
   deriving Repr
+
+/-- `maxNesting` of parser.go -/
+def maxNesting : Nat := 2000
 
 namespace PState
 def cur (s : PState) : Token := s.toks.headD Token.eof
@@ -183,15 +188,21 @@ mutual
     match fuel with
     | 0 => none
     | fuel + 1 =>
-      if isPostfix s.cur.ty then
-        some (.postfix s.prev.lit s.cur.lit, s)
+      -- the nesting guard: `p.depth++ … if p.depth > maxNesting { error }`, undone on the way out
+      let s := { s with depth := s.depth + 1 }
+      if s.depth > maxNesting then none
+      else if isPostfix s.cur.ty then
+        some (.postfix s.prev.lit s.cur.lit, { s with depth := s.depth - 1 })
       else
         match prefixFn s.cur.ty with
         | none => none
         | some fn =>
           match parsePrefix fuel fn s with
           | none => none
-          | some (left, s) => infixLoop fuel prec left s
+          | some (left, s) =>
+            match infixLoop fuel prec left s with
+            | none => none
+            | some (e, s) => some (e, { s with depth := s.depth - 1 })
 
   /-- the `for !peekTokenIs(SEMICOLON) && precedence < peekPrecedence()` loop -/
   def infixLoop (fuel : Nat) (prec : Nat) (left : Expr) (s : PState) : Option (Expr × PState) :=
